@@ -78,7 +78,21 @@ def vc_part(rep, prop, timeout_ms=60000, concrete_hooks=None, only=None):
         rep.add_finding(Finding(prop, 'vc:' + oname, 'obligation %s refuted: %s' % (oname, f['detail']),
                                 replay=replay, concrete=concrete))
       else:
-        rep.undecide(oname, 'solver unknown')
+        # solver gave up: only a concrete failing input on the real code can turn this into a violation
+        hook = (concrete_hooks or {}).get(r['function'])
+        witness = None
+        if hook is not None:
+          try:
+            witness = hook(f)
+          except Exception:
+            witness = None
+        if witness is not None:
+          rep.add_finding(Finding(prop, 'vc:' + oname, 'obligation %s not discharged and a failing input exists: %s'
+                                  % (oname, f['detail']),
+                                  replay=dict(obligation=oname, clause=f['detail'], failing_input=witness),
+                                  concrete=True))
+        else:
+          rep.undecide(oname, 'solver unknown')
   rep.assumptions.extend(PY_SEMANTICS)
   return results
 
